@@ -23,6 +23,7 @@ def generate(rng: random.Random, tier: str):
         cases.append({'kind': 'd1', 'n': rng.randint(1, 12), 'flavour': rng.choice(['random', 'random', 'duplicates', 'uniform', 'two', 'single']), 'seed': rng.randrange(1 << 30)})
     for _ in range(200 if thorough else 30):
         cases.append({'kind': 'd2', 'flavour': rng.choice(['radial', 'spiral', 'random', 'duplicates', 'grid']), 'seed': rng.randrange(1 << 30)})
+        cases.append({'kind': 'glue', 'dim': rng.choice([2, 2, 3]), 'seed': rng.randrange(1 << 30)})
     for _ in range(30 if thorough else 6):
         cases.append({'kind': 'd3', 'flavour': rng.choice(['random', 'grid']), 'seed': rng.randrange(1 << 30)})
     for _ in range(60 if thorough else 12):
@@ -252,5 +253,65 @@ def run_separable(case, drv) -> Outcome:
     return Outcome(key=('separable', n1, n0, case['seed'] % 97), viol=viol, branches=['separable'], sample=case)
 
 
+def run_glue(case, drv) -> Outcome:
+    """dcf_2d3d_voronoi against the Lean model `M.dcfGlue` of everything around the Voronoi volumes: the cell volumes of the unique
+    positions are computed here with scipy exactly as the library documents it (bounding corners at 10x the extent, shoelace formula /
+    convex hull) and handed to the model as the oracle; unique positions, outlier replacement, sharing among coincident samples and the
+    mapping back to the samples are the model's"""
+    from fractions import Fraction
+    from itertools import product
+
+    import numpy as np
+    from mrpro.algorithms.dcf.dcf_voronoi import dcf_2d3d_voronoi
+    from scipy.spatial import ConvexHull, Voronoi
+
+    from harness.core.conv import frac_str
+
+    warnings.filterwarnings('ignore')
+    rng = random.Random(case['seed'])
+    dim = case['dim']
+    n = rng.randint(10, 24) if dim == 2 else rng.randint(12, 20)
+    pts = [[rng.randint(-24, 24) / 4 for _ in range(dim)] for _ in range(n)]
+    for _ in range(rng.randint(1, 4)):  # repetitions, also of an outermost sample
+        i, j = rng.randrange(n), rng.randrange(n)
+        pts[i] = list(pts[j])
+    far = max(range(n), key=lambda i: sum(v * v for v in pts[i]))
+    for i in rng.sample([i for i in range(n) if i != far], rng.choice([0, 1, 2])):
+        pts[i] = list(pts[far])
+    traj = torch.tensor(pts, dtype=torch.float32).T.reshape(dim, 1, 1, n)
+    st, w = call(lambda: dcf_2d3d_voronoi(traj))
+    cfg = f'{dim}D glue seed {case["seed"]} ({n} samples)'
+    if st != 'ok':
+        return Outcome(key=('glue-raises', cfg), viol={'signature': 'dcfglue:raises', 'what': f'{cfg}: dcf_2d3d_voronoi raises {w}'})
+    w = w.reshape(-1).double()
+    # the volume oracle (qhull), on the unique positions in numpy's order
+    arr = np.round(traj.numpy().reshape(dim, -1), decimals=15)
+    uniq = np.unique(arr, axis=1)
+    corner = np.array(list(product([-1, 1], repeat=dim))) * np.max(np.abs(uniq)) * 10
+    vd = Voronoi(np.concatenate((uniq, corner.T), axis=1).T)
+    verts = [vd.vertices[vd.regions[r]] for r in vd.point_region[: -len(corner)]]
+    if dim == 2:
+        vols = [float(np.abs(np.cross(v[:-1], v[1:]).sum(0) + np.cross(v[-1], v[0])) / 2) for v in verts]
+    else:
+        vols = [float(ConvexHull(v).volume) for v in verts]
+    m = drv.call({'op': 'dcf_glue', 'pts': [[frac_str(float(c)) for c in p] for p in arr.T.tolist()], 'vol': [frac_str(v) for v in vols]})
+    corr = None
+    viol = None
+    if [[float(Fraction(c)) for c in u] for u in m['unique']] != uniq.T.tolist():
+        corr = f'{cfg}: unique positions / their order differ between numpy and the model'
+    elif m['status'] != 'ok':
+        corr = f'{cfg}: the model rejects the input'
+    else:
+        mw = torch.tensor([float(Fraction(x)) for x in m['w']], dtype=torch.float64)
+        if not torch.allclose(w, mw, rtol=2e-5, atol=1e-7):
+            bad = int(torch.argmax((w - mw).abs() / (mw.abs() + 1e-12)))
+            corr = f'{cfg}: sample {bad} at {pts[bad]}: dcf {float(w[bad]):.6g}, model (volumes from qhull, glue from Lean) {float(mw[bad]):.6g}'
+            viol = {'signature': 'dcfglue:value', 'what': corr}
+    return Outcome(key=('glue', dim, n, case['seed'] % 997), corr=corr, viol=viol, branches=[f'glue:{dim}D', f'glue:outliers:{sum(1 for v in vols if v > 0) and "any"}'],
+                   sample={**case, 'n': n})
+
+
 def run(case, drv) -> Outcome:
+    if case['kind'] == 'glue':
+        return run_glue(case, drv)
     return {'d1': run_d1, 'd2': run_d2, 'd3': run_d3, 'separable': run_separable}[case['kind']](case, drv)
